@@ -130,6 +130,11 @@ impl FeoxStore {
         // Calculate how many sectors we need to read
         let total_size = format.total_size(source.key.len(), source.value_len);
         let sectors_needed = total_size.div_ceil(FEOX_BLOCK_SIZE);
+        #[cfg(feoxdb_verif)]
+        {
+            crate::verif::ext::note("pin", sector, sectors_needed as u64);
+            crate::verif::sched::point("c08_pinned");
+        }
 
         // Read the sectors
         let disk_io = self
@@ -144,7 +149,11 @@ impl FeoxStore {
             .read();
 
         let data = disk_io.read_sectors_sync(sector, sectors_needed as u64)?;
+        #[cfg(feoxdb_verif)]
+        crate::verif::ext::note("unpin", sector, sectors_needed as u64);
         drop(extent);
+        #[cfg(feoxdb_verif)]
+        crate::verif::sched::point("c08_unpinned");
 
         if !sector_holds_record(&data, &source) {
             return Err(FeoxError::StaleExtent);
